@@ -19,13 +19,13 @@ theorem C05_atomic (w : World) (op : Op) (hpk : WPK w) (h : (step w op).2.rc ≠
     split
     · intro _; exact SlotRel.refl Same.refl _
     · intro h; exact absurd rfl h
-  | mkBlock c n =>
+  | mkBlock c n len =>
     revert h; simp only [step]
     split
     · intro _; exact SlotRel.refl Same.refl _
     · rename_i s hl
       intro h
-      exact rel_of_error w c s hl (createBlock s n) (fun e he => createBlock_error s n false e he) h c'
+      exact rel_of_error w c s hl (createBlock s n len) (fun e he => createBlock_error s n len e he) h c'
   | getBlock c n =>
     revert h; simp only [step]
     split
@@ -38,13 +38,13 @@ theorem C05_atomic (w : World) (op : Op) (hpk : WPK w) (h : (step w op).2.rc ≠
     split
     · intro _; exact SlotRel.refl Same.refl _
     · intro h; exact absurd rfl h
-  | mkFrame hh n =>
+  | mkFrame hh n len =>
     revert h; simp only [step]
     split
     · intro _; exact SlotRel.refl Same.refl _
     · rename_i e s hl
       intro h
-      exact rel_of_error w e.cif s (liveH_liveC hl) (createFrame s e.h n) (fun x he => createFrame_error s e.h n false x he) h c'
+      exact rel_of_error w e.cif s (liveH_liveC hl) (createFrame s e.h n len) (fun x he => createFrame_error s e.h n len x he) h c'
   | getFrame hh n =>
     revert h; simp only [step]
     split
